@@ -559,10 +559,10 @@ static vnaproperty_t **list_subtree(vnaproperty_t *list,
 	    errno = ENOENT;
 	    return NULL;
 	}
-	if (list_check_allocation(vplp, index + 1) == -1) {
+	if (list_check_allocation(vplp, (size_t)index + 1) == -1) {
 	    return NULL;
 	}
-	vplp->vpl_length = index + 1;
+	vplp->vpl_length = (size_t)index + 1;
     }
     return &vplp->vpl_vector[index];
 }
